@@ -522,7 +522,7 @@ static void hist_run (long item)
 					else snprintf (sig, sizeof sig, "%s-truth-%s-got-%s", en, status_name (want), o->rval ? "ERR" : status_name (o->status));
 					viol ("C05", sig, "after this history a fresh copy of the LP is %s but %s returned rval=%d status=%s [history: %s]", status_name (want), en, o->rval, status_name (o->status), S.desc.s);
 				} else if (want == QS_LP_OPTIMAL && !mpq_equal (o->objval, T->val)) {
-					char *a = mpq_get_str (NULL, 10, o->objval), *b = mpq_get_str (NULL, 10, T->val);
+					char *a = q_str (o->objval), *b = q_str (T->val);
 					viol ("C05", "value-differs", "re-solve gives %s but a fresh copy of the LP has optimum %s [history: %s]", a, b, S.desc.s);
 					free (a); free (b);
 				}
